@@ -18,6 +18,11 @@ claimed = {
    note="Trusted: the ResourceManager implementations (any status/error; call recorded in ghost state), GettyRemoting.SendAsync as transport boundary (trusted contract recording the frame; its body is C14's), the three sync.Once singletons (trusted contracts), sync.Map modelled as a sequential map. Interleavings of concurrent requests are not explored: independence is the proved frame condition plus sync.Map atomicity. Behaviour for a branch type with no registered manager (panic in GetResourceManager) is outside the property and excluded by a requires.",
    ref="DESIGN.md §3 C15",
    technique="contract-based deductive verification: VCs from go/ssa by symbolic execution, ghost call records for routing/multiplicity, contracts in //@ comment files, discharged by cvc5/z3"),
+ "C04": dict(
+   text="Deductive proof over the real SSA of GlobalTransactionManager.Begin/Commit/Rollback, commitOrRollback, WithGlobalTx (with its deferred recover closure) and the backoff helper, against an environment in which every coordinator request may fail at any attempt, the caller's context may be cancelled at any point, and the business callback may return any error or panic: commit is requested iff the callback returned nil without panicking, otherwise rollback; never both; never by a participant; only the initiator's own xid; requests are repeated only after a transport failure and at most the configured number of times (loop invariants + variant); Commit/Rollback/commitOrRollback/WithGlobalTx return nil only if the matching request was acknowledged and the business succeeded; a business panic neither escapes nor becomes nil; a failed begin surfaces and runs no business code; no nil dereference or failed type assertion in Commit/Rollback.",
+   note="Trusted: SendSyncRequest as coordinator boundary (assumed: any error; a response of the answering type otherwise), context.Context.Err monotone, the business callback leaves the transaction context as it found it (C07's frame), three sync.Once singletons, time/rand. 'Acknowledged' = a response arrived; its result code is not inspected (the statement does not require it). Known finding (open): a configured retry count of 0 means unbounded retries (KNOWN-FINDING lines; proved for every other configuration).",
+   ref="DESIGN.md §3 C04",
+   technique="contract-based deductive verification: VCs from go/ssa by symbolic execution incl. defer/recover/panic paths, ghost request counters, loop invariants and variants, discharged by cvc5/z3"),
 }
 na = {
  "C18": "relates generated SQL text executed by MySQL to the rows another SQL text changed; needs a formal semantics of MySQL DML and of the arana-db parser AST, which no contract within reach of a self-written VC generator can express (DESIGN.md §4)",
